@@ -272,7 +272,9 @@ def note_sequence_to_pretty_midi(
   # Populate tempos.
   # TODO(douglaseck): Update this code if pretty_midi adds the ability to
   # write tempo.
-  for seq_tempo in sequence.tempos:
+  # Tempos must be added in time order: each time -> tick conversion depends on
+  # the tempo changes before it, and the list is not guaranteed to be in order.
+  for seq_tempo in sorted(sequence.tempos, key=lambda t: t.time):
     # Skip if this tempo was added in the PrettyMIDI constructor.
     if seq_tempo == initial_seq_tempo:
       continue
